@@ -50,7 +50,12 @@ func typeTableExtra() map[string]string {
 func hashMod(s string, seed int64, mod int) int {
 	h := fnv.New64a()
 	fmt.Fprintf(h, "%d|%s", seed, s)
-	return int(h.Sum64() % uint64(mod))
+	// the low bits of FNV-1a are poorly mixed (the parity of similar JSON texts is nearly constant): fold
+	x := h.Sum64()
+	x ^= x >> 29
+	x *= 0x9E3779B97F4A7C15
+	x ^= x >> 32
+	return int(x % uint64(mod))
 }
 
 // mfEnumerate runs TLC on MCMatchField and returns the cases kept for this
@@ -350,6 +355,21 @@ func mfJudgeC16(r *b1.Result) b1.Verdict {
 		v.OK = true
 		return v
 	}
+	// Statically only two things are certain: a plain assignment of the source slice shares its storage, and
+	// `no match` gives up where a copy is required. Any other statement shape may well be a correct fresh
+	// copy written differently; whether it is, is decided on the run-time side (trace validation).
+	src := ""
+	for _, a := range m.Allowed {
+		if a.K == "slice" {
+			src = a.T
+		}
+	}
+	aliasing := o.K == "assign" && normTerm(o.T) == normTerm(src)
+	gaveUp := o.K == "nomatch"
+	if !aliasing && !gaveUp {
+		v.OK = true
+		return v
+	}
 	v.What = fmt.Sprintf("%s: generated %s, the specification permits %s", mfDescribe(m), fmtAllowed([]outcome{o}), fmtAllowed(m.Allowed))
 	v.Deviation = mfDeviation(m, o, r)
 	return v
@@ -526,7 +546,7 @@ func C01(c *core.Ctx) {
 	c01MatchField(c, keep)
 	// signature and hook families: every accepted combination must compile
 	sc := sigCases(c)
-	st := b1.Run(c, b1.Options{Name: "sigc01", PerFile: 40, Family: "signature", Compile: true}, sc,
+	st := b1.Run(c, sigOptions("sigc01", 40, true, sc), sc,
 		compileJudge(func(r *b1.Result) string { return "signature " + sigDescribe(r.Case.Data.(*sigCase)) }))
 	c.AddCount("programs", int64(st.Functions))
 	hc := hookCases(c)
